@@ -45,6 +45,7 @@ type Case struct {
 	Custom            bool     // custom ctx through NewCtxFunc (documented pattern)
 	ReqMethods        []string `json:",omitempty"` // custom Config.RequestMethods (nil = default)
 	Regs              []Reg
+	Late              int `json:",omitempty"` // the last Late top-level registrations are made after the app served its first request, followed by RebuildTree
 	Method, Path      string
 }
 
@@ -397,7 +398,17 @@ type observed struct {
 func run(c Case) observed {
 	var trace []string
 	app := newApp(c)
-	install(app, c.Regs, &trace, c.cfg())
+	if c.Late > 0 && c.Late <= len(c.Regs) {
+		// the table grows while the app is in service: the first registrations, a start (the lookup tree is built, one
+		// request served), the remaining registrations and the documented RebuildTree
+		install(app, c.Regs[:len(c.Regs)-c.Late], &trace, c.cfg())
+		vk.Do(app, "GET", "/vk-warm-up")
+		trace = trace[:0]
+		install(app, c.Regs[len(c.Regs)-c.Late:], &trace, c.cfg())
+		app.RebuildTree()
+	} else {
+		install(app, c.Regs, &trace, c.cfg())
+	}
 	resp := vk.Do(app, c.Method, c.Path)
 	return observed{trace, resp.Response.StatusCode(), string(resp.Response.Header.Peek("Allow"))}
 }
@@ -736,6 +747,9 @@ func genCase(t *rapid.T) Case {
 		c.Regs = append(c.Regs, g.reg(0, c.Regs, routePaths)...)
 	}
 	sanitize(&c)
+	if rapid.IntRange(0, 3).Draw(t, "late") == 0 {
+		c.Late = rapid.IntRange(1, len(c.Regs)).Draw(t, "nlate")
+	}
 	c.Method = rapid.SampledFrom(g.methods).Draw(t, "method")
 	base := rapid.SampledFrom(reqPaths).Draw(t, "req")
 	if rapid.Bool().Draw(t, "fromtable") {
